@@ -11,7 +11,7 @@ import (
 
 func init() {
 	register("C17", propMeta{
-		Explanation:  "Decides five structural necessary conditions of ordered-collection behaviour, not the behaviour: (R1) updates that would change a key's order are rejected: in UpdateCurrentKey and UpdateCurrentItem the comparison `compare(currentKey, newKey) != 0` with an error return dominates every store of the new key into the item and the node slot; UpdateKey / UpdateCurrentItem reach those two only; (R2) sibling rotation moves exactly one parent separator, so the sibling helpers must return the ADJACENT child only: getLeftSibling / getRightSibling contain no loop, take the node's own index from getIndexOfNode and ask the parent for the child at index-1 / index+1 through getChild (a nil child yields nil: no vacancy is seen across an emptied sibling); the vacancy tests and the distribute functions obtain siblings only through these helpers. (R3) cursor stepping: in moveToNext / moveToPrevious every descent step is taken only after the nil-child escape of the same direction was consulted on the node being left, initially and between successive descent steps. (R4) whenever a node's Slots are cleared to be repopulated its Count is assigned before the node is saved; (R5) a function that hangs a new child holding a caller-supplied item under ChildrenIDs[i] takes i from its caller, a key comparison or a direction argument.",
+		Explanation:  "Decides five structural necessary conditions of ordered-collection behaviour, not the behaviour: (R1) updates that would change a key's order are rejected: in UpdateCurrentKey and UpdateCurrentItem the comparison `compare(currentKey, newKey) != 0` with an error return dominates every store of the new key into the item and the node slot; UpdateKey / UpdateCurrentItem reach those two only; (R2) sibling rotation moves exactly one parent separator, so the sibling helpers must return the ADJACENT child only: getLeftSibling / getRightSibling contain no loop, take the node's own index from getIndexOfNode and ask the parent for the child at index-1 / index+1 through getChild (a nil child yields nil: no vacancy is seen across an emptied sibling); the vacancy tests and the distribute functions obtain siblings only through these helpers. (R3) cursor stepping: in moveToNext / moveToPrevious every descent step is taken only after the nil-child escape of the same direction was consulted on the node being left, initially and between successive descent steps. (R4) whenever a node's Slots are cleared to be repopulated its Count is assigned before the node is saved; (R5) a function that hangs a new child holding a caller-supplied item under ChildrenIDs[i] takes i from its caller, a key comparison or a direction argument. (R6) a node created and hung under X.ChildrenIDs is created with newID(X.ID): parent links agree with child links.",
 		DoesNotCover: "Splits, rotations, deletes, scan order against a model, and Count after arbitrary operation sequences are value-level behaviour and are NOT decided here (C05/C06 cover the duplicate check and the count bookkeeping).",
 	}, runC17)
 }
